@@ -962,8 +962,11 @@ class Segment:
             items.sort(key=rm.cj)
             return {"set": items}
         if isinstance(value, dict):
+            # (the 'documentation' text of a metrics entry is the method's docstring: None under
+            # python -OO by the interpreter's own rules, so it is not part of the result)
             items = [[self.canon(k, unordered, depth + 1), self.canon(value[k], unordered,
-                                                                      depth + 1)] for k in value]
+                                                                      depth + 1)] for k in value
+                     if not (k == "documentation" and "result" in value and "name" in value)]
             items.sort(key=rm.cj)
             return {"dict": items}
         return {"repr": type(value).__name__}
@@ -1124,10 +1127,16 @@ class Segment:
         dom = op.get("domain")
         # "domain never set" is a statement about a fresh object: a reused one legitimately
         # still holds the domain it was given before
-        if op.get("obj") == "reuse" and key in self.objects and dom is not None:
+        if op.get("obj") == "reuse" and key in self.objects and \
+                (dom is not None or op.get("withdraw")):
             obj = self.objects[key]
             tags.append("hist.op_object_reused")
             self.probe("op_object_reused")
+            if dom is None:
+                # the caller withdraws the domain it had given earlier
+                obj.set_domain(None)
+                tags.append("dom.withdrawn")
+                self.probe("randattr_domain_withdrawn")
         else:
             obj = mod.GenerateRandomAttribute()
         if dom is not None:
@@ -1272,7 +1281,13 @@ def main():
     faulthandler.enable()
     job = json.loads(sys.stdin.read())
     faulthandler.dump_traceback_later(job.get("wall_limit", 120), exit=True)
-    logging.disable(logging.CRITICAL)
+    if job.get("log_debug"):
+        # the embedding application has verbose logging switched on (records go nowhere)
+        logging.getLogger().setLevel(logging.DEBUG)
+        logging.getLogger().addHandler(logging.NullHandler())
+        logging.lastResort = None
+    else:
+        logging.disable(logging.CRITICAL)
     repo = job.get("repo", "/repo")
     pkg_dir = install_repo_finder(repo)
     out = {"ok": False}
